@@ -19,7 +19,13 @@ def observe(ad, rid, times=None, detail=False, style_catalogue=None, use_cache=F
   from ttconv.isd import ISD
   D = ad.get("D", 2)
   doc, _elems, _regions = build_doc(ad, D, style_catalogue)
+  fps = []
+  if use_cache:
+    from .isdu import fingerprint
+    fps.append(fingerprint(doc))
   sig = ISD.significant_times(doc)
+  if use_cache:
+    fps.append(fingerprint(doc))
   sigticks = []
   sigok = 1
   for s in sig:
@@ -40,7 +46,11 @@ def observe(ad, rid, times=None, detail=False, style_catalogue=None, use_cache=F
     params.append(doc_params(isd))
     if use_cache:
       obsc.append(project_isd(ISD.from_model(doc, Fraction(t, D), sig), detail))
+  if use_cache:
+    fps.append(fingerprint(doc))
   seq = ISD.generate_isd_sequence(doc)
+  if use_cache:
+    fps.append(fingerprint(doc))
   seqt = []
   seqd = []
   for (st, isd) in seq:
@@ -51,4 +61,5 @@ def observe(ad, rid, times=None, detail=False, style_catalogue=None, use_cache=F
          "seqt": seqt, "seqd": seqd, "params": params, "srcparams": doc_params(doc)}
   if use_cache:
     rec["obsc"] = obsc
+    rec["fps"] = fps            # fingerprints: before, after significant_times, after all snapshots, after the sequence
   return rec
